@@ -196,6 +196,73 @@ func (w *W) marshalAll(t *gcore.Type, id string, c *dynamicpb.Message, report bo
 	return b
 }
 
+// decodedValues (C04): message values that came out of the generated Unmarshal - of the canonical encoding and of every
+// other legal encoding of the case (fields permuted, repeated, split, packed/unpacked, explicit zero values, non-minimal
+// varints, unknown fields) - are message values like any other: Size must equal len(Marshal), MarshalTo must fill a
+// Size()-byte window exactly, nothing may panic. (What the decode yields is C06's business; inputs it rejects are skipped.)
+func (w *W) decodedValues(t *gcore.Type, id string, c *dynamicpb.Message) {
+	for _, v := range variants(t.RefDesc(), c, 1) {
+		vid := id + "/decoded:" + v.name
+		cls := classOfVariant(v.name)
+		dec := func() any {
+			x := t.New()
+			var err error
+			if p := guard(func() { err = x.(unmarshaler).Unmarshal(append([]byte{}, v.b...)) }); p != "" || err != nil {
+				return nil
+			}
+			return x
+		}
+		x, y := dec(), dec()
+		if x == nil || y == nil {
+			continue
+		}
+		if tree, terr := gcore.TreeOf(t, x); terr != nil || !initialized(tree) {
+			continue // a decoded message that lacks required fields: whether it may be marshaled is C17's business
+		}
+		w.evals++
+		var sz, sz2 int
+		var b []byte
+		var err error
+		if p := guard(func() { sz = x.(sizer).Size(); b, err = x.(marshaler).Marshal(); sz2 = x.(sizer).Size() }); p != "" || err != nil {
+			w.failV(t, "C04/decoded-message/Size-or-Marshal-fails", id, cls, vid, fmt.Sprint(p, err), v.b)
+			continue
+		}
+		if sz != len(b) || sz2 != len(b) {
+			w.failV(t, "C04/decoded-message/Size-differs-from-len(Marshal)", id, cls, vid, fmt.Sprintf("Size()=%d len(Marshal())=%d Size() afterwards=%d", sz, len(b), sz2), v.b)
+			continue
+		}
+		var ysz int
+		arena := make([]byte, 0)
+		var merr error
+		p := guard(func() {
+			ysz = y.(sizer).Size()
+			arena = make([]byte, ysz+2*canary)
+			for i := range arena {
+				arena[i] = 0xA5
+			}
+			merr = y.(marshalerTo).MarshalTo(arena[canary : canary+ysz : canary+ysz])
+		})
+		if p != "" || merr != nil {
+			w.failV(t, "C04/decoded-message/MarshalTo-fails-on-Size()-buffer", id, cls, vid, fmt.Sprint(p, merr), v.b)
+			continue
+		}
+		ok := ysz == len(b)
+		for i := 0; i < canary && ok; i++ {
+			ok = arena[i] == 0xA5 && arena[canary+ysz+i] == 0xA5
+		}
+		if ok {
+			if tree, terr := gcore.TreeOf(t, y); terr == nil && !multiEntryMap(tree) {
+				ok = bytes.Equal(arena[canary:canary+ysz], b)
+			}
+		}
+		if !ok {
+			w.failV(t, "C04/decoded-message/MarshalTo-differs-from-Marshal", id, cls, vid, fmt.Sprintf("MarshalTo=%s Marshal=%s", hexs(arena[canary:canary+ysz]), hexs(b)), v.b)
+			continue
+		}
+		w.nontr++
+	}
+}
+
 func hexs(b []byte) string {
 	if len(b) > 96 {
 		return fmt.Sprintf("%x...(%d bytes)", b[:96], len(b))
@@ -268,6 +335,96 @@ func (w *W) checkC05(t *gcore.Type, id string, c *dynamicpb.Message) {
 	if bad != "" {
 		w.fail(t, "C05/output-differs-after-the-runtime-sized-the-message", id, bad, map[string]any{"bytes": hexs(b), "bytes_after_runtime_Size": hexs(b2)})
 	}
+}
+
+// withUnknowns returns a copy of c in which the message itself and every message below it (singular, list element, map
+// value) carries fields its schema does not define, as a message decoded from a newer writer's data does.
+func withUnknowns(c *dynamicpb.Message) *dynamicpb.Message {
+	d := gcore.ToDyn(c.Descriptor(), c)
+	var walk func(m protoreflect.Message, depth int)
+	walk = func(m protoreflect.Message, depth int) {
+		unk := unknownFields(m.Descriptor())
+		raw := append(append([]byte{}, unk[0].raw...), unk[5].raw...)
+		if depth%2 == 1 {
+			raw = append([]byte{}, unk[3].raw...)
+		}
+		m.SetUnknown(raw)
+		m.Range(func(fd protoreflect.FieldDescriptor, v protoreflect.Value) bool {
+			switch {
+			case fd.IsExtension():
+			case fd.IsMap():
+				if fd.MapValue().Message() != nil {
+					v.Map().Range(func(_ protoreflect.MapKey, x protoreflect.Value) bool { walk(x.Message(), depth+1); return true })
+				}
+			case fd.IsList():
+				if fd.Message() != nil {
+					for i := 0; i < v.List().Len(); i++ {
+						walk(v.List().Get(i).Message(), depth+1)
+					}
+				}
+			case fd.Message() != nil:
+				walk(v.Message(), depth+1)
+			}
+			return true
+		})
+	}
+	walk(d, 0)
+	return d
+}
+
+// c05Unknowns: the original carries unknown fields at every level. Marshal (first call, second call on the same message,
+// and after Size was called first) must give bytes from which the reference reads back the same tree, unknown fields
+// of every level included and at the level they belong to.
+func (w *W) c05Unknowns(t *gcore.Type, id string, c *dynamicpb.Message) {
+	if c.Descriptor().Fields().Len() == 0 {
+		return
+	}
+	cu := withUnknowns(c)
+	x, perr := build(t, cu)
+	if perr != "" {
+		return
+	}
+	y, _ := build(t, cu)
+	uid := id + "/with-unknown-fields-at-every-level"
+	outs := map[string][]byte{}
+	var err error
+	if p := guard(func() {
+		var b []byte
+		if b, err = x.(marshaler).Marshal(); err != nil {
+			return
+		}
+		outs["first Marshal"] = b
+		if b, err = x.(marshaler).Marshal(); err != nil {
+			return
+		}
+		outs["second Marshal of the same message"] = b
+		_ = y.(sizer).Size()
+		if b, err = y.(marshaler).Marshal(); err != nil {
+			return
+		}
+		outs["Marshal after Size"] = b
+		if b, err = csproto.Marshal(y); err != nil {
+			return
+		}
+		outs["csproto.Marshal after that"] = b
+	}); p != "" || err != nil {
+		w.fail(t, "C05/original-with-unknown-fields/Marshal-fails", uid, fmt.Sprint(p, err), nil)
+		return
+	}
+	for _, k := range []string{"first Marshal", "second Marshal of the same message", "Marshal after Size", "csproto.Marshal after that"} {
+		b := outs[k]
+		w.evals++
+		d, derr := refDecode(t, b)
+		if derr != nil {
+			w.fail(t, "C05/original-with-unknown-fields/reference-rejects-generated-bytes", uid, k+": "+derr.Error(), map[string]any{"bytes": hexs(b), "call": k})
+			return
+		}
+		if df := gcore.Diff(cu, d); df != "" {
+			w.fail(t, "C05/original-with-unknown-fields/decoded-differs-from-original", uid, k+": "+df, map[string]any{"bytes": hexs(b), "call": k})
+			return
+		}
+	}
+	w.nontr++
 }
 
 // decodeGen runs the generated Unmarshal on a private copy of b into x and reads the tree back.
@@ -456,6 +613,27 @@ func (w *W) checkC07(t *gcore.Type, id string, c *dynamicpb.Message) {
 		if !multiEntryMap(ref) && !bytes.Equal(out, out2) {
 			w.failV(t, "C07/second-round-trip-not-a-fixed-point", id, cls, vid, fmt.Sprintf("%s vs %s", hexs(out), hexs(out2)), out)
 			continue
+		}
+		// the caller re-uses its read buffer between Unmarshal and the next Marshal (default, copying decode mode only)
+		if !strings.Contains(os.Getenv("VERIF_GEN_OPTS"), "enableunsafedecode=true") {
+			z := t.New()
+			in3 := append([]byte{}, v.b...)
+			var out3 []byte
+			if p := guard(func() {
+				if err = z.(unmarshaler).Unmarshal(in3); err == nil {
+					for i := range in3 {
+						in3[i] = ^in3[i]
+					}
+					out3, err = z.(marshaler).Marshal()
+				}
+			}); p != "" || err != nil {
+				w.failV(t, "C07/Marshal-fails-after-the-input-buffer-was-reused", id, cls, vid, fmt.Sprint(p, err), v.b)
+				continue
+			}
+			if !multiEntryMap(ref) && !bytes.Equal(out3, out) {
+				w.failV(t, "C07/unknown-fields-not-preserved-when-the-input-buffer-is-reused", id, cls, vid, fmt.Sprintf("%s vs %s", hexs(out3), hexs(out)), v.b)
+				continue
+			}
 		}
 		if len(ref.GetUnknown()) > 0 {
 			w.nontr++
@@ -1130,8 +1308,10 @@ func worker(sh *ev.Shard, prop string) {
 				if b := w.marshalAll(t, c.ID, c.Msg, true); len(b) > 0 {
 					w.nontr++
 				}
+				w.decodedValues(t, c.ID, c.Msg)
 			case "C05":
 				w.checkC05(t, c.ID, c.Msg)
+				w.c05Unknowns(t, c.ID, c.Msg)
 			case "C06":
 				w.checkC06(t, c.ID, c.Msg)
 			case "C07":
